@@ -119,7 +119,8 @@ int main(void)
 			char *a = next_tok();
 			if (!a) { puts("bad-op"); continue; }
 			printf("%zu\n", prefix_digit_len((size_t)strtoull(a, NULL, 10)));
-		} else if (strcmp(op, "enc") == 0) {
+		} else if (strcmp(op, "enc") == 0 || strcmp(op, "rt") == 0) {
+			/* rt: the same arguments; write_tar_header, then read_header on what was written + 1024 zero bytes (full round trip) */
 			/* enc <flags> <mode-octal> <uid> <gid> <size> <mtime> <maj> <min> <counter> <name> <target|null> {<key> <value>} */
 			char *t[10]; int i, ok = 1, ret; char *nm, *tg; unsigned char *nb, *tb = NULL; long nl, tl = 0;
 			sqfs_dir_entry_t *ent; sqfs_xattr_t *xl = NULL, *xlast = NULL;
@@ -151,8 +152,26 @@ int main(void)
 			else {
 				wr_len = 0;
 				ret = write_tar_header(&mem_stream, ent, tb ? (const char *)tb : NULL, xl, (unsigned)strtoul(t[8], NULL, 10));
-				fputs(ret ? "err " : "ok ", stdout);          /* on failure: what was appended nevertheless */
-				hex_print(stdout, wr_buf, wr_len); putchar('\n');
+				if (ret || op[0] == 'e') {
+					fputs(ret ? "err " : "ok ", stdout);          /* on failure: what was appended nevertheless */
+					hex_print(stdout, wr_buf, wr_len); putchar('\n');
+				} else {
+					sqfs_istream_t *fp; tar_header_decoded_t h; size_t total = wr_len + 1024, rest;
+					mem_append(&mem_stream, NULL, 1024);
+					fp = istream_memory_create("mem", 1024, wr_buf, total);
+					if (!fp) abort();
+					ret = read_header(fp, &h);
+					if (ret < 0) puts("err");
+					else if (ret > 0) puts("eof");
+					else {
+						fputs("ok ", stdout);
+						print_decoded(&h);
+						rest = drain(fp);
+						printf(" consumed=%zu\n", total - rest);
+						clear_header(&h);
+					}
+					sqfs_drop(fp);
+				}
 			}
 			sqfs_xattr_list_free(xl);
 			free(ent); free(nb); free(tb);
